@@ -309,6 +309,8 @@ def _shared_source(repo, m, imported, classlevel, modlevel, expr, locs, f):
                             init = k2.methods.get("__init__")
                             if init and any(isinstance(n, ast.Assign) and any(U(t) == "self.%s" % expr.attr for t in n.targets) for n in ast.walk(init.node)):
                                 inits = True
+                        if base.id == "cls":
+                            inits = False     # cls.x is the class's own object whatever instances do in __init__
                         if not inits and is_mutable_expr(classlevel[(k, expr.attr)]):
                             return "class attribute %s.%s" % (k, expr.attr)
                 return None
@@ -401,6 +403,24 @@ def det1(ctx, c):
                     c.finding("%s:%s" % (f.q, hit), "process-wide state is changed and not restored on every exit",
                               "%s calls %s: the change outlives the assembly when an exception passes through (no try/finally restores it), so what a later assembly in the same "
                               "process does depends on how an earlier one ended" % (f.q, hit), repo.loc(f, x))
+    # a module-level constant computed from the state of the process at import time (working directory, environment, clock): it is fixed when the module is first
+    # imported, so what an assembly does depends on where / when the process started rather than on the source
+    AMBIENT = ("os.getcwd", "os.getcwdb", "os.environ.get", "os.getenv", "time.time", "time.localtime", "datetime.now", "datetime.datetime.now", "datetime.date.today", "os.getpid",
+               "random.random", "random.randint", "os.path.abspath", "os.path.realpath", "pathlib.Path.cwd", "Path.cwd", "tempfile.gettempdir", "tempfile.mkdtemp")
+    for m in repo.modules.values():
+        if not m.rel.startswith("cocoasm/"):
+            continue
+        scopes = [("", m.assigns)] + [(cl.name + ".", cl.assigns) for cl in m.classes.values()]
+        for prefix, assigns in scopes:
+            for name, val in assigns.items():
+                amb = [x for x in ast.walk(val) if (isinstance(x, ast.Call) and U(x.func) in AMBIENT) or (isinstance(x, ast.Subscript) and U(x.value) == "os.environ")] \
+                    if isinstance(val, ast.AST) else []
+                used = any((isinstance(x, ast.Name) and x.id == name and not prefix) or (isinstance(x, ast.Attribute) and prefix and x.attr == name)
+                           for f in repo.all_funcs() for x in ast.walk(f.node))
+                if amb and used:
+                    c.finding("%s:%s%s" % (m.rel, prefix, name), "bound at import time to %s" % U(amb[0])[:40],
+                              "%s%s in %s is computed from `%s` when the module is first imported and used by the assembler afterwards: a later assembly in the same process sees the "
+                              "state the process had at import time, not its own" % (prefix, name, m.rel, U(amb[0])[:50]), "%s:%d" % (m.rel, getattr(val, "lineno", 0)))
     # one object of a repository class created at import time and handed out to callers that store into objects of that class
     mutable_cls = {}
     for m in repo.modules.values():
